@@ -2,7 +2,7 @@
    Statements only. *)
 From Coq Require Import List NArith Arith Bool.
 From SonicV Require Import Base.Blocks Model.Escape Model.TablesDefs Model.TablesOk Model.Pretty Model.SerRoundTrip Gen.Tables Spec.Ref Model.EscRoundTrip Model.SerAll.
-From SonicV Require Model.SerClosed.
+From SonicV Require Model.SerClosed Model.PrettyClosed.
 Import ListNotations.
 Local Close Scope N_scope.
 Local Open Scope nat_scope.
@@ -53,3 +53,13 @@ Proof. exact decode_escape. Qed.
 Theorem compact_serialization_denotes_the_tree : forall v, SerClosed.wf (SerClosed.erase v) ->
   exists v', Ref.ref_text true (ser_compact v) = Some (v', 0, length (ser_compact v)) /\ SerClosed.erase v' = SerClosed.erase v.
 Proof. exact SerClosed.ser_compact_reads_back. Qed.
+
+(* the pretty serialization is read back by the reference parser as the same tree, hence pretty and
+   compact output denote the same tree: they differ only by insignificant whitespace *)
+Theorem pretty_serialization_denotes_the_tree : forall v, SerClosed.wf (SerClosed.erase v) ->
+  exists v' a b, Ref.ref_text true (ser_pretty v) = Some (v', a, b) /\ SerClosed.erase v' = SerClosed.erase v.
+Proof. exact PrettyClosed.ser_pretty_reads_back. Qed.
+Theorem pretty_and_compact_agree : forall v, SerClosed.wf (SerClosed.erase v) ->
+  exists vp ap bp vc, Ref.ref_text true (ser_pretty v) = Some (vp, ap, bp) /\
+                      Ref.ref_text true (ser_compact v) = Some (vc, 0, length (ser_compact v)) /\ SerClosed.erase vp = SerClosed.erase vc.
+Proof. exact PrettyClosed.pretty_and_compact_denote_the_same_tree. Qed.
